@@ -57,6 +57,14 @@ missed, the generator or oracle was strengthened (never the other way round) and
   blocks (the commit rule then targets a block below the committed one); now caught by C07 too.
 * C08-m2 (`signedBy` accepts multi-signer view signatures) was missed: the timeout injection got
   a `multi-viewsig` kind (the sender's genuine signature combined with another replica's).
+* C10-m3 (the RequestBlock handler converts the hash field with a slice-to-array conversion that
+  panics on short hashes) was missed: the wire-level delivery only covered the four consensus
+  handlers; `wire requestblock` now sends hash fields of 0..64 bytes and absent requests through
+  the real handler.
+* C18-m3 (the JSON scenario source decodes into a reused buffer) was missed: files were written
+  with one scenario only; `jsonfilelit` now sends two different scenarios through one file.
+* C19-m3 (EdDSA `Combine` compares signature pointers instead of signer ids) was missed: every
+  replica signed once; now replicas sign a second time and both objects are combined.
 
 {table}
 """
